@@ -3,9 +3,9 @@
    parsing, int/decimal <-> Z conversion, printing of results. *)
 open Pp
 
-type sexp = A of string | L of sexp list
+type sexp = A of Stdlib.String.t | L of sexp list
 
-let parse_sexp (s : string) : sexp =
+let parse_sexp (s : Stdlib.String.t) : sexp =
   let n = String.length s in
   let pos = ref 0 in
   let rec skip () = if !pos < n && (s.[!pos] = ' ' || s.[!pos] = '\t') then (incr pos; skip ()) in
@@ -39,7 +39,7 @@ let int_of_z = function Z0 -> 0 | Zpos p -> int_of_pos p | Zneg p -> - (int_of_p
 let nat_of_int i : nat = let r = ref O in for _ = 1 to i do r := S !r done; !r
 let ten = z_of_int 10
 (* decimal string -> Z, unbounded *)
-let z_of_string (s : string) : z =
+let z_of_string (s : Stdlib.String.t) : z =
   let neg = String.length s > 0 && s.[0] = '-' in
   let st = if neg then 1 else 0 in
   let acc = ref Z0 in
@@ -47,7 +47,7 @@ let z_of_string (s : string) : z =
     acc := Z.add (Z.mul !acc ten) (z_of_int (Char.code s.[k] - 48))
   done;
   if neg then Z.opp !acc else !acc
-let string_of_z (x : z) : string =
+let string_of_z (x : z) : Stdlib.String.t =
   match x with
   | Z0 -> "0"
   | _ ->
@@ -110,3 +110,32 @@ let () = List.iter (fun c -> Hashtbl.replace space_tbl c ()) [9;10;11;12;13;28;2
 let is_space (c : n) = Hashtbl.mem space_tbl (int_of_n c)
 
 let big_fuel = nat_of_int 3_000_000
+
+(* ---- Coq strings ---- *)
+let ascii_of_char (c : char) : ascii =
+  let n = Char.code c in
+  let b k = (n lsr k) land 1 = 1 in
+  Ascii (b 0, b 1, b 2, b 3, b 4, b 5, b 6, b 7)
+let char_of_ascii (Ascii (b0, b1, b2, b3, b4, b5, b6, b7)) : char =
+  let v b k = if b then 1 lsl k else 0 in
+  Char.chr (v b0 0 + v b1 1 + v b2 2 + v b3 3 + v b4 4 + v b5 5 + v b6 6 + v b7 7)
+let cstring_of (s : Stdlib.String.t) : Pp.string =
+  let n = String.length s in
+  let rec go k = if k = n then EmptyString else String (ascii_of_char s.[k], go (k + 1)) in go 0
+let rec string_of_c (s : Pp.string) : Stdlib.String.t =
+  match s with EmptyString -> "" | String (a, tl) -> String.make 1 (char_of_ascii a) ^ string_of_c tl
+
+(* ---- configuration histories ---- *)
+let cval_of = function
+  | A "none" -> CNone
+  | L [A "int"; z] -> CInt (zint z)
+  | L [A "bool"; b] -> CBool (boolv b)
+  | _ -> failwith "cval"
+let env_of (l : sexp list) = List.map (function L [A k; v] -> (cstring_of k, cval_of v) | _ -> failwith "env") l
+let cop_of = function
+  | L (A "set" :: l) -> OSet (env_of l)
+  | L (A "call" :: A ep :: l) -> OCall (cstring_of ep, env_of l)
+  | _ -> failwith "cop"
+let cval_out = function CNone -> "none" | CInt z -> string_of_z z | CBool b -> if b then "True" else "False"
+let env_out (e : (Pp.string * cval) list) =
+  String.concat "," (List.map (fun (k, v) -> string_of_c k ^ "=" ^ cval_out v) e)
